@@ -423,7 +423,7 @@ fn replay(path: &str) -> i32 {
             return 2;
         }
     };
-    if text.contains("\"real_history\"") {
+    if text.contains("\"real_history\"") || text.contains("\"real_expr\"") {
         return real::replay_real(path, &text);
     }
     let rf: ReplayFile = match serde_json::from_str(&text) {
